@@ -534,11 +534,17 @@ impl<'r, 'a> Collector<'r, 'a> {
         if let (Some(b), Some(e), Some(fs)) = (&bind, iter_expr, for_start) {
             // R8 with a name: `let B = W(&(EXPR)); let ghost B_g = B@; for .. in B`
             // (without wrap=: `let B = EXPR;` -- EXPR evaluated once, immediately before the loop, as by `for`)
+            fn var_or_field(x: &syn::Expr) -> bool {
+                match x {
+                    syn::Expr::Path(_) => true,
+                    syn::Expr::Field(f) => matches!(&*f.base, syn::Expr::Path(_)),
+                    _ => false,
+                }
+            }
             let plain = match e {
-                syn::Expr::Path(_) => true,
-                syn::Expr::Reference(r) => matches!(&*r.expr, syn::Expr::Path(_)),
+                syn::Expr::Reference(r) => var_or_field(&r.expr),
                 syn::Expr::MethodCall(m) => m.args.is_empty() && matches!(&*m.receiver, syn::Expr::Path(_)),
-                _ => false,
+                other => var_or_field(other),
             };
             if !plain {
                 die("unsupported", &format!("{}: bind= side condition: the iterated expression of loop {key} is not a plain variable (or a parameterless method call on one)", self.rw.fn_path));
@@ -598,6 +604,30 @@ impl<'r, 'a> Collector<'r, 'a> {
                         }
                     }
                 }
+                // R15 (match form): `let X = match E { P => V, OTHERS => { continue; } };` (two arms)
+                //   -> `if let P = E { let X = V; rest }`
+                if let syn::Stmt::Local(l) = st {
+                    if let Some(init) = &l.init {
+                        if init.diverge.is_none() {
+                            if let syn::Expr::Match(mt) = &*init.expr {
+                                let is_cont = |a: &syn::Arm| match &*a.body {
+                                    syn::Expr::Block(b) => b.block.stmts.len() == 1 && matches!(&b.block.stmts[0], syn::Stmt::Expr(syn::Expr::Continue(c), _) if c.label.is_none()),
+                                    syn::Expr::Continue(c) => c.label.is_none(),
+                                    _ => false,
+                                };
+                                if mt.arms.len() == 2 && mt.arms[0].guard.is_none() && mt.arms[1].guard.is_none() && !is_cont(&mt.arms[0]) && is_cont(&mt.arms[1]) {
+                                    let x = self.rw.text(&l.pat).to_string();
+                                    let pat = self.rw.text(&mt.arms[0].pat).to_string();
+                                    let scrut = self.render(&mt.expr);
+                                    let val = self.render(&mt.arms[0].body);
+                                    self.edits.push(Edit { range: rng(st), text: format!("if let {pat} = {scrut} {{ let {x} = {val};"), prio: 0 });
+                                    self.edits.push(Edit { range: close.start..close.start, text: "}\n".to_string(), prio: 8 });
+                                    self.rw.log.push(format!("R15 `let x = match e {{ p => v, _ => {{ continue; }} }}` in loop {key} -> if-let around the rest of the body"));
+                                }
+                            }
+                        }
+                    }
+                }
                 if let syn::Stmt::Expr(syn::Expr::If(ife), _) = st {
                     let only_continue = ife.else_branch.is_none() && ife.then_branch.stmts.len() == 1 && matches!(&ife.then_branch.stmts[0], syn::Stmt::Expr(syn::Expr::Continue(c), _) if c.label.is_none());
                     if only_continue {
@@ -649,7 +679,7 @@ impl<'ast, 'r, 'a> Visit<'ast> for Collector<'r, 'a> {
                 self.rw.log.push(format!("R30 let {name} = {m}.entry({k}).or_default() -> __entry_or_default; {name}.insert(..) -> __entry_insert"));
                 self.edits.push(Edit { range: rng(s), text: format!("__entry_or_default(&mut {m}, {k});"), prio: 0 });
             }
-            syn::Stmt::Local(l) if self.rw.on("R3") || self.rw.on("R16") || self.rw.on("R3f") || self.rw.on("R17") || self.rw.on("R26") || self.rw.on("R33") || self.rw.on("R3m") => {
+            syn::Stmt::Local(l) if self.rw.on("R3") || self.rw.on("R16") || self.rw.on("R3f") || self.rw.on("R17") || self.rw.on("R26") || self.rw.on("R33") || self.rw.on("R3m") || self.rw.on("R44") => {
                 if self.rw.on("R16") {
                     if let Some(t) = self.try_r16(l) {
                         self.edits.push(Edit { range: rng(s), text: t, prio: 0 });
@@ -664,6 +694,12 @@ impl<'ast, 'r, 'a> Visit<'ast> for Collector<'r, 'a> {
                 }
                 if self.rw.on("R26") {
                     if let Some(t) = self.try_r26(l) {
+                        self.edits.push(Edit { range: rng(s), text: t, prio: 0 });
+                        return;
+                    }
+                }
+                if self.rw.on("R44") {
+                    if let Some(t) = self.try_r44(l) {
                         self.edits.push(Edit { range: rng(s), text: t, prio: 0 });
                         return;
                     }
@@ -826,6 +862,90 @@ impl<'ast, 'r, 'a> Visit<'ast> for Collector<'r, 'a> {
                 self.rw.log.push(format!("R42 V[I].entry(K).or_default().{}(X) -> {f}", m.method));
                 self.edits.push(Edit { range: rng(e), text: format!("{f}(&mut {v}, {i}, {k}, {x})"), prio: 0 });
             }
+            // R43: ITER.filter_map(|p| B).max()  ->  { let mut __m = None; for p in ITER { if let Some(__v) = B { __m = keep the greater } } __m }
+            // (Iterator::max keeps the last of equal maxima; for the integers it is applied to that is the same value)
+            syn::Expr::MethodCall(m)
+                if m.method == "max" && self.rw.on("R43") && m.args.is_empty()
+                    && is_method(&m.receiver, "filter_map").map_or(false, |f| f.args.len() == 1 && matches!(&f.args[0], syn::Expr::Closure(_))) =>
+            {
+                let fm = is_method(&m.receiver, "filter_map").unwrap();
+                let cl = match &fm.args[0] {
+                    syn::Expr::Closure(c) => c,
+                    _ => unreachable!(),
+                };
+                if cl.capture.is_some() || cl.inputs.len() != 1 || closure_has_control_flow(&cl.body) {
+                    die("unsupported", &format!("{}: R43 side condition violated (move closure / several params / control flow in body)", self.rw.fn_path));
+                }
+                let key = self.rw.next_key("R43");
+                let (iter, hdr, bs, be) = self.rw.loop_parts(&key);
+                let var = format!("__r43_{}", key.split('#').nth(1).unwrap());
+                let pat = self.rw.text(&cl.inputs[0]).to_string();
+                let recv = self.render(&fm.receiver);
+                let body = self.render(&cl.body);
+                self.rw.log.push(format!("R43 ITER.filter_map(..).max() -> loop {key}"));
+                let bind = self.rw.loops.iter().find(|l| l.key == key).and_then(|l| l.bind.clone());
+                let (pre, recv) = match bind {
+                    Some(b) => (format!("let {b} = {recv}; let ghost {b}_g = {b}@; "), b),
+                    None => (String::new(), recv),
+                };
+                self.edits.push(Edit { range: rng(e), text: format!("{{ {pre}let mut {var} = None; for {pat} in {iter}{recv} {hdr}{{ {bs}if let Some(__v) = {body} {{ {var} = match {var} {{ None => Some(__v), Some(__o) => Some(if __v >= __o {{ __v }} else {{ __o }}) }}; }} {be}}} {var} }}"), prio: 0 });
+            }
+            // R45: 'L: { if !C { break 'L None; } Some(E) }  ->  if !(C) { None } else { Some(E) }
+            syn::Expr::Block(b) if self.rw.on("R45") && b.label.is_some() && b.block.stmts.len() == 2 => {
+                let lbl = b.label.as_ref().unwrap().name.ident.to_string();
+                let cond = match &b.block.stmts[0] {
+                    syn::Stmt::Expr(syn::Expr::If(i), _) if i.else_branch.is_none() && i.then_branch.stmts.len() == 1 => {
+                        let ok = match &i.then_branch.stmts[0] {
+                            syn::Stmt::Expr(syn::Expr::Break(br), _) => br.label.as_ref().map_or(false, |l| l.ident == lbl) && br.expr.as_ref().map_or(false, |x| norm(self.rw.text(&**x)) == "None"),
+                            _ => false,
+                        };
+                        if !ok {
+                            die("unsupported", &format!("{}: R45 side condition: the labelled block is not `if C {{ break 'L None; }} Some(E)`", self.rw.fn_path));
+                        }
+                        self.render(&i.cond)
+                    }
+                    _ => die("unsupported", &format!("{}: R45 side condition: the labelled block is not `if C {{ break 'L None; }} Some(E)`", self.rw.fn_path)),
+                };
+                let tail = match &b.block.stmts[1] {
+                    syn::Stmt::Expr(x, None) => self.render(x),
+                    _ => die("unsupported", &format!("{}: R45 side condition: the labelled block has no tail expression", self.rw.fn_path)),
+                };
+                self.rw.log.push(format!("R45 labelled block '{lbl} -> if/else"));
+                self.edits.push(Edit { range: rng(e), text: format!("if {cond} {{ None }} else {{ {tail} }}"), prio: 0 });
+            }
+            // R46: X.iter_top_level_star_transitions().collect()  ->  X.iter_top_level_star_transitions()
+            // (the adapter chain is a stand-in that already returns the vector of what it yields)
+            syn::Expr::MethodCall(m)
+                if m.method == "collect" && self.rw.on("R46") && m.args.is_empty()
+                    && matches!(&*m.receiver, syn::Expr::MethodCall(inner) if ["iter_top_level_star_transitions"].contains(&inner.method.to_string().as_str()) && inner.args.is_empty()) =>
+            {
+                let recv = self.render(&m.receiver);
+                self.rw.log.push("R46 stand-in iterator .collect() -> the vector itself".to_string());
+                self.edits.push(Edit { range: rng(e), text: recv, prio: 0 });
+            }
+            // R47: M.entry(K).or_default().insert(A, B)  ->  { __entry_or_default(&mut M, K); __entry_insert(&mut M, K, A, B) }
+            // (M a plain variable; K a variable or a field of one, so that evaluating it twice is harmless)
+            syn::Expr::MethodCall(m)
+                if m.method == "insert" && self.rw.on("R47") && m.args.len() == 2
+                    && is_method(&m.receiver, "or_default").map_or(false, |od| od.args.is_empty() && is_method(&od.receiver, "entry").map_or(false, |en| en.args.len() == 1 && matches!(&*en.receiver, syn::Expr::Path(_)))) =>
+            {
+                let od = is_method(&m.receiver, "or_default").unwrap();
+                let en = is_method(&od.receiver, "entry").unwrap();
+                let pure = match &en.args[0] {
+                    syn::Expr::Path(_) => true,
+                    syn::Expr::Field(f) => matches!(&*f.base, syn::Expr::Path(_)),
+                    _ => false,
+                };
+                if !pure {
+                    die("unsupported", &format!("{}: R47 side condition: the entry key is not a variable or a field of one", self.rw.fn_path));
+                }
+                let mp = self.render(&en.receiver);
+                let k = self.render(&en.args[0]);
+                let a = self.render(&m.args[0]);
+                let b = self.render(&m.args[1]);
+                self.rw.log.push("R47 M.entry(K).or_default().insert(A, B) -> __entry_or_default; __entry_insert".to_string());
+                self.edits.push(Edit { range: rng(e), text: format!("{{ __entry_or_default(&mut {mp}, {k}); __entry_insert(&mut {mp}, {k}, {a}, {b}) }}"), prio: 0 });
+            }
             // R38: ITER.next().is_some()  ->  ITER.len() > 0   (ITER is a stand-in returning the vector of what the adapter chain yields)
             syn::Expr::MethodCall(m) if m.method == "is_some" && self.rw.on("R38") && m.args.is_empty() && is_method(&m.receiver, "next").map_or(false, |n| n.args.is_empty()) => {
                 let nx = is_method(&m.receiver, "next").unwrap();
@@ -911,7 +1031,8 @@ impl<'ast, 'r, 'a> Visit<'ast> for Collector<'r, 'a> {
                 let map = self.render(&en.receiver);
                 let k = self.render(&en.args[0]);
                 self.rw.log.push(format!("R18 .entry(k).or_insert_with(counter closure) -> __entry_or_insert_counter (counter `{c_name}`)"));
-                self.edits.push(Edit { range: rng(e), text: format!("__entry_or_insert_counter(&mut {map}, {k}, &mut {c_name})"), prio: 0 });
+                let f = if self.rw.on("R18i") { "__entry_or_insert_counter_ix" } else { "__entry_or_insert_counter" };
+                self.edits.push(Edit { range: rng(e), text: format!("{f}(&mut {map}, {k}, &mut {c_name})"), prio: 0 });
             }
             // R25: M.retain(|k, _| !N.contains_key(k))  ->  __map_retain_not_in(&mut M, &N)   (closure matched literally)
             syn::Expr::MethodCall(m) if m.method == "retain" && (self.rw.on("R25") || self.rw.on("R34")) && m.args.len() == 1 && matches!(m.args[0], syn::Expr::Closure(_)) => {
@@ -1296,6 +1417,49 @@ impl<'r, 'a> Collector<'r, 'a> {
         let vec_ty = ty.unwrap_or_else(|| "UstrMap<_>".to_string());
         self.rw.log.push(format!("R26 let {name} = M.iter()[.filter(..)].map(..).collect() into a UstrMap -> loop {key}"));
         Some(format!("let mut {name}: {vec_ty} = UstrMap::default(); for __e in {iter}__map_entries(&{m}) {hdr}{{ {bs}{guard}{{ let {pat} = __e; {name}.insert({k}, {v}); }} {be}}}"))
+    }
+
+    /// R44: `let x: BTreeMap<K, V> = SRC.iter().map(|PAT| (A, B)).collect();`  (SRC evaluates to a Vec)
+    ///  -> `let __src_x = SRC; let ghost __src_x_g = __src_x@; let mut x: BTreeMap<K, V> = BTreeMap::new(); for PAT in __src_x.iter() { x.insert(A, B); }`
+    /// (collect() into a map inserts the pairs in order, later pairs replacing earlier ones with the same key)
+    fn try_r44(&mut self, l: &syn::Local) -> Option<String> {
+        let init = l.init.as_ref()?;
+        if init.diverge.is_some() {
+            return None;
+        }
+        let (name, ty) = self.local_name_ty(l)?;
+        let ty = ty?;
+        let is_hash = ty.replace(' ', "").starts_with("HashMap<");
+        if !ty.replace(' ', "").starts_with("BTreeMap<") && !is_hash {
+            return None;
+        }
+        let coll = is_method(&init.expr, "collect")?;
+        let mp = is_method(&coll.receiver, "map")?;
+        let it = is_method(&mp.receiver, "iter")?;
+        let cl = match mp.args.get(0) {
+            Some(syn::Expr::Closure(c)) => c,
+            _ => return None,
+        };
+        if cl.capture.is_some() || cl.inputs.len() != 1 || closure_has_control_flow(&cl.body) {
+            die("unsupported", &format!("{}: R44 side condition violated (move closure / several params / control flow in body)", self.rw.fn_path));
+        }
+        let tup = match &*cl.body {
+            syn::Expr::Tuple(t) if t.elems.len() == 2 => t,
+            syn::Expr::Block(b) if b.block.stmts.len() == 1 => match &b.block.stmts[0] {
+                syn::Stmt::Expr(syn::Expr::Tuple(t), None) if t.elems.len() == 2 => t,
+                _ => die("unsupported", &format!("{}: R44 side condition: the closure body is not a pair", self.rw.fn_path)),
+            },
+            _ => die("unsupported", &format!("{}: R44 side condition: the closure body is not a pair", self.rw.fn_path)),
+        };
+        let key = self.rw.next_key("R44");
+        let (iter, hdr, bs, be) = self.rw.loop_parts(&key);
+        let pat = self.rw.text(&cl.inputs[0]).to_string();
+        let src = self.render(&it.receiver);
+        let a = self.render(&tup.elems[0]);
+        let b = self.render(&tup.elems[1]);
+        self.rw.log.push(format!("R44 let {name}: BTreeMap = SRC.iter().map(..).collect() -> loop {key} with insert"));
+        let ctor = if is_hash { "Default::default()" } else { "BTreeMap::new()" };
+        Some(format!("let __src_{name} = &({src}); let ghost __src_{name}_g = __src_{name}@; let mut {name}: {ty} = {ctor}; for {pat} in {iter}__src_{name}.iter() {hdr}{{ {bs}{name}.insert({a}, {b}); {be}}}"))
     }
 
     /// R3m: `let x: Vec<T> = M.iter().filter_map(|PAT| B).collect();` (M an index map)
